@@ -164,8 +164,10 @@ def main():
         except Exception as e:
             out.append({'hint_error': repr(e)})
             continue
-        case = dict(case, value=U.iteration_order(case['value']))
-        res = {'runs': [], 'sat': None, 'value_norm': case['value']}
+        # the objects are built from the IR as given; the model is handed the IR re-ordered to
+        # the iteration order those very objects have (hash collisions make set order depend
+        # on insertion order, so the re-ordered IR must not be used to rebuild the objects)
+        res = {'runs': [], 'sat': None, 'value_norm': U.iteration_order(case['value'])}
         try:
             res['sat'] = bool(py_sat(case['hint'], U.to_python(case['value'])))
         except Exception as e:
